@@ -39,7 +39,7 @@ def parseAct (t : String) : Option (List Act) :=
       | some e, some n => some (List.replicate n (Act.poll e))
       | _, _ => none
     | _ => none
-  | 'S' => (ofHex body).map fun b => [Act.deliver (.start b)]
+  | 'S' => (ofHex body).map fun b => [Act.deliver (.start (decodeOffer b))]
   | 'T' =>
     match (body.splitOn ":").map parseInt with
     | [some c, some f, some h] => some [Act.deliver (.tune c f h)]
